@@ -456,7 +456,7 @@ def correspondence(ctx):
                                 vPeriod, vTime, vUTCOffset, vWeekday)
     rng = ctx.rng
     dec = decoders()
-    thorough = ctx.tier == 'thorough' or ctx.escalate
+    thorough = ctx.tier == 'thorough'
 
     def through(op, t, nontrivial=True):
         f, conv = dec[op]
@@ -1019,7 +1019,7 @@ def oracle(ctx):
     rng = ctx.rng
     orc = Oracle(ctx)
     ev = ctx.evaluated
-    deep = ctx.tier == 'thorough' or ctx.escalate
+    deep = ctx.tier == 'thorough'
 
     # known-finding witnesses first
     ev(('time-utc', 12, 0, 0))
